@@ -36,7 +36,8 @@ def gen_plan(ch: Chooser, tier: str) -> dict[str, Any]:
                                        nonessential=False, lifecycles=True)
         plan['mode'] = 'changes'
         return plan
-    plan = spawning.gen_spawning_plan(ch, daemons=(0, 2), timers=(1, 2), pauses=False, exits=False, max_objects=2)
+    plan = spawning.gen_spawning_plan(ch, daemons=(0, 2), timers=(1, 2), pauses=False, exits=False, max_objects=2,
+                                      sync_share=ch.choice([0.0, 0.0, 0.5]))
     for h in plan['operators'][0]['handlers']:
         o = h['opts']
         if ch.bool(0.6):
